@@ -270,7 +270,7 @@ def gen_case(rng: random.Random, thorough: bool) -> dict:
                     written = False
                 ops.append(['open', mode, limit])
             continue
-        if r < 0.30:
+        if r < 0.30 or (not live and r < 0.62):
             i = ident()
             op = 'add' if rng.random() < 0.6 else 'new_write'
             ops.append([op, i, form] + write_args())
@@ -358,13 +358,13 @@ class Exec:
         """Mechanism key from the placement facts of the last write of that file and the observed bytes."""
         m = self.meta.get(name, {})
         lim = m.get('limit')
+        if m.get('forged') and got is not None and got == m.get('previous'):
+            return 'same-crc-write-skipped'
         if got is not None and not m.get('single'):
             if lim is None and want and got == want + want:
                 return 'nolimit-data-duplicated'
             if m.get('arch') is None and lim is not None and len(want) > lim and got == want[:lim]:
                 return 'dir-tail-lost'
-        if m.get('forged') and got is not None and got == m.get('previous'):
-            return 'same-crc-write-skipped'
         return 'content-mismatch'
 
     # ---- operations
@@ -574,7 +574,12 @@ class Exec:
                           {'first_difference_at': next((i for i, (a, b) in enumerate(zip(got, want)) if a != b), min(len(got), len(want))),
                            'got_len': len(got), 'want_len': len(want), 'placement': {k: v for k, v in m.items() if k != 'previous'}}, key=key)
             if info.size != len(want):
-                self.fail(f'{who}: {name!r}.size is {info.size}, data has {len(want)} bytes', key='size-mismatch')
+                m = self.meta.get(name, {})
+                # the second copy made by data[None:] can be lost again on its way to disk; its length stays behind
+                dup = m.get('limit') is None and not m.get('single') and info.size == 2 * len(want)
+                self.fail(f'{who}: {name!r}.size is {info.size}, data has {len(want)} bytes '
+                          f'(limit={m.get("limit")}, arch_index={m.get("arch")}, single={m.get("single")})',
+                          key='nolimit-data-duplicated' if dup else 'size-mismatch')
             if not info.verify():
                 self.fail(f'{who}: {name!r} fails checksum verification although it reads back correctly', key='verify-fails')
             self.run.count('file_reads_compared')
@@ -734,11 +739,11 @@ def main(run, shard=(0, 1)) -> None:
             if mine(j, shard):
                 case['regen'] = ['matrix', j]
                 run_case(run, case, 'matrix', base, sample=j == 5)
-        n_forge = 200 if thorough else 24
+        n_forge = 400 if thorough else 24
         for j in range(n_forge):
             if mine(j, shard):
                 run_case(run, regen(run, 'forge', j), 'forge', base, sample=j == 0)
-        n = 16000 if thorough else 700
+        n = 250000 if thorough else 8000
         for i in range(n):
             if not mine(i, shard):
                 continue
